@@ -221,7 +221,10 @@ func TestC14(t *testing.T) {
 	}
 	close(jobs)
 	wg.Wait()
-	r.Require("puts_of_the_empty_value", "histories_db", "histories_http", "histories_linearizable", "overlapping_histories", "list_overlapping_two_puts", "same_value_puts_overlapping", "histories_over_loopback_sockets", "histories_with_failing_file_system", "calls_failed_by_io_error_under_concurrency", "calls_whose_reply_was_lost", "histories_with_a_restart")
+	if r.Only < 0 {
+		stalledFrontDoorCall(t, r, dir)
+	}
+	r.Require("stalled_front_door_calls", "histories_mixing_front_door_and_direct_calls", "puts_of_the_empty_value", "histories_db", "histories_http", "histories_linearizable", "overlapping_histories", "list_overlapping_two_puts", "same_value_puts_overlapping", "histories_over_loopback_sockets", "histories_with_failing_file_system", "calls_failed_by_io_error_under_concurrency", "calls_whose_reply_was_lost", "histories_with_a_restart")
 	r.Rule("three history shapes: 'global-with-list' (4 clients x 5 ops: list/put/activate/get/delete on the first and last of 32 names, checked unpartitioned), 'per-key' (7 clients x 7 ops of all kinds on 3 names, partitioned by name), 'same-value-burst' (8 spin-synchronised clients putting the same value); audit sink injects yields/microsecond sleeps; DB API and HTTP handlers. Every history + a final sequential state read is decided by porcupine. Distinct = (shape, level, hash of the observed overlap pattern)")
 }
 
@@ -263,8 +266,19 @@ func oneHistory(t *testing.T, r *evid.Run, dir string, idx int, sh shape, level 
 	var dcur atomic.Pointer[db.DB]
 	dcur.Store(d)
 	var do doer = func(op ops.Op) ops.Result { return ops.ApplyReal(dcur.Load(), su, op) }
+	mixed := false
+	direct := do
 	if level == "http" {
-		srv, err := httpdrv.New(d)
+		// a third of the front-door histories are MIXED: the embedding program gave the server its own audit
+		// sink besides the open database, and keeps using the database directly (its odd-numbered clients do)
+		// while the even-numbered ones come through the front door
+		var aw *audit.Writer
+		if idx%3 == 1 && !sh.faulty {
+			aw = audit.New(&yieldSink{})
+			mixed = true
+			r.Count("histories_mixing_front_door_and_direct_calls", 1)
+		}
+		srv, err := httpdrv.NewWithAudit(d, aw)
 		if err != nil {
 			t.Error(err)
 			return
@@ -387,7 +401,11 @@ func oneHistory(t *testing.T, r *evid.Run, dir string, idx int, sh shape, level 
 					pause.Done()
 					<-resume
 				}
-				h.record(c, op, do)
+				if mixed && c%2 == 1 {
+					h.record(c, op, direct)
+				} else {
+					h.record(c, op, do)
+				}
 			}
 		}(c)
 	}
@@ -538,4 +556,56 @@ func viaClient(cl setec.Client, op ops.Op) ops.Result {
 		return res(cl.Delete(ctx, op.Name))
 	}
 	panic("bad op")
+}
+
+// stallOnce is an audit sink whose first Write after arming takes a long time (a stalled disk) and then succeeds.
+type stallOnce struct {
+	armed atomic.Bool
+	d     time.Duration
+}
+
+func (s *stallOnce) Write(p []byte) (int, error) {
+	if s.armed.CompareAndSwap(true, false) {
+		time.Sleep(s.d)
+	}
+	return len(p), nil
+}
+
+// stalledFrontDoorCall: one mutating request through the front door spends several seconds inside the server
+// (the audit log's disk stalls, then recovers). Whenever the client is told the call FAILED, the call has no
+// effect - not now and not later: a reply is the end of the call, and nothing may take effect after it.
+func stalledFrontDoorCall(t *testing.T, r *evid.Run, dir string) {
+	for ci, op := range []ops.Op{{Kind: ops.Put, Name: "stalled", Value: []byte("hunter2")}, {Kind: ops.Delete, Name: "kept"}} {
+		snk := &stallOnce{d: 5500 * time.Millisecond}
+		d, err := db.Open(filepath.Join(dir, fmt.Sprintf("stall%d.db", ci)), realdb.DummyKey("c14st"), audit.New(snk))
+		if err != nil {
+			t.Fatal(err)
+		}
+		su := realdb.Super()
+		d.Put(su, "kept", []byte("kept-value"))
+		srv, err := httpdrv.New(d)
+		if err != nil {
+			t.Fatal(err)
+		}
+		const addr = "100.64.0.14:2"
+		srv.SetWho(addr, httpdrv.Who{Login: "c14@verif", Node: "c14", Rules: []refmodel.Rule{{Actions: []string{"get", "info", "put", "activate", "delete"}, Patterns: []string{"*"}}}})
+		before, _ := realdb.Dump(d)
+		snk.armed.Store(true)
+		res, rep, _ := srv.Do(addr, op)
+		r.Eval(1)
+		r.Count("stalled_front_door_calls", 1)
+		r.Distinct("stalled front-door " + string(op.Kind))
+		if res.Class == refmodel.OK {
+			continue // it waited the stall out and succeeded: fine
+		}
+		// told "failed": watch the state for a while
+		for k := 0; k < 15; k++ {
+			now, _ := realdb.Dump(d)
+			if now == nil || now.Canon() != before.Canon() {
+				r.Violation("effect-after-the-reply", -1, fmt.Sprintf("%s through the front door while the audit log's disk stalled for 5.5 s: the client was answered %d (failure) - and %d ms later the state changed all the same: the call took effect after its own reply, which no order of calls compatible with real time explains", op, rep.Status, 100*k), nil)
+				break
+			}
+			time.Sleep(100 * time.Millisecond)
+		}
+	}
 }
